@@ -12,6 +12,7 @@ import (
 	"fmt"
 	"math/rand"
 	"os"
+	"runtime"
 	"slices"
 	"sort"
 	"strings"
@@ -64,6 +65,7 @@ type cnDriver struct {
 	lastRh      []*rhView        // round state of the runtimes at the end of the previous block
 	rhQuiet     map[string]int64 // runtime -> round for which no further commitments are generated (left to the round timer)
 	vaults      bool             // vault transactions are generated
+	hugeInBlock bool             // the block carries a commitment that declares a huge number of processed incoming messages
 	deregSoon   []string         // entities that were just handed a runtime and will try to deregister
 	evidenceAt  int64            // height at which consensus evidence is included (grown-committee pattern)
 	txSweep     bool             // all single structural body mutations of the block's transactions at CheckTx / EstimateGas
@@ -1298,7 +1300,22 @@ func (d *cnDriver) observe(b *cnBlock, metas []cnTxMeta) cnBlockResult {
 			}
 			d.emit(evn)
 		}
+		var ms0 runtime.MemStats
+		if d.hugeInBlock {
+			runtime.ReadMemStats(&ms0)
+		}
 		ebr := r.mux.EndBlock(cmtabci.RequestEndBlock{Height: b.Height})
+		if d.hugeInBlock {
+			// a commitment of this block declares 2^26 processed incoming messages: finalizing the round may not allocate by that count
+			var ms1 runtime.MemStats
+			runtime.ReadMemStats(&ms1)
+			d.hugeInBlock = false
+			if grown := ms1.TotalAlloc - ms0.TotalAlloc; grown > 200<<20 {
+				msg := fmt.Sprintf("allocation blow-up: EndBlock allocated %d MiB in a block carrying a commitment with a huge declared count of incoming messages", grown>>20)
+				d.panics = append(d.panics, fmt.Sprintf("h=%d EndBlock: %s", b.Height, msg))
+				d.emit(map[string]any{"ev": "panic", "h": b.Height, "where": "EndBlock", "msg": msg})
+			}
+		}
 		eb := ebr.ValidatorUpdates
 		res.ValUpd = valUpdStrings(eb)
 		d.vrf = n.vrfViewOf(bgCtx, st2(r))
